@@ -210,7 +210,8 @@ CONFIGS.update(matrix_configs())
 
 
 class LayoutProblem(Exception):
-    """the process data of a terminal are in no datagram of the frame"""
+    """the process data of a terminal are in no datagram of the frame, or
+    the device variables of a motor have no place of their own in the map"""
 
 
 def locate(sg, dgs, t, sm):
@@ -308,6 +309,12 @@ class Rig:
         self.motors = []
         for ch in spec["channels"]:
             m = Motor()
+            # the application configures the device before it is put into
+            # its sync group (small numbers, different per variable)
+            for k, name in enumerate(("proportional", "max_acceleration",
+                                      "max_velocity", "target",
+                                      "set_enable")):
+                setattr(m, name, 4 * ((k + len(self.motors)) % 5))
             c = chans[ch]
             m.velocity = c.velocity
             m.low_switch = c.low_switch
@@ -333,6 +340,26 @@ class Rig:
             devices.append(DigitalInput(ta.channel6))
         g = self.group = fastsim.FastGroup(devices, ec, kernel, index=9)
         self.template = bytearray(fastsim.ETH_HEADER + g.sterile)
+        # ---- the motors' device variables: 4 bytes each, inside the map,
+        # no two at the same place
+        taken = {}
+        for i, m in enumerate(self.motors):
+            for name in ("proportional", "target", "max_acceleration",
+                         "max_velocity", "set_enable"):
+                off = m.__dict__.get(name)
+                if not isinstance(off, int) or isinstance(off, bool) or \
+                        not 0 <= off <= len(g.area) - 4:
+                    raise LayoutProblem(
+                        f"device variable {name} of motor {i} has no place "
+                        f"in the group's map ({off!r}, map size "
+                        f"{len(g.area)})")
+                for b in range(off, off + 4):
+                    if b in taken:
+                        raise LayoutProblem(
+                            f"device variables {name} of motor {i} and "
+                            f"{taken[b][1]} of motor {taken[b][0]} overlap "
+                            f"(byte {b} of the group's map)")
+                    taken[b] = (i, name)
         # ---- where things are, from the frame itself
         try:
             _, dgs = ecparse.parse(g.assembled)
